@@ -267,6 +267,52 @@ Definition sstep_i (i : instr) (s : sstate) : sres :=
       | [_] | [] => shalt H_UNDERFLOW
       | _ => sstuck ST_SYMBOLIC
       end
+  | ICalldatacopy | ICodecopy =>
+      match st with
+      | TConst d :: TConst o :: TConst n :: r =>
+          if (d <? 0) || (o <? 0) || (n <? 0) then sstuck ST_SYMBOLIC
+          else if s_oog_range d n then shalt H_OOG
+          else
+            let src := match i with
+                       | ICalldatacopy => smread (se_data se) (Z.to_nat o) (Z.to_nat n)
+                       | _ => map (fun b => (31%nat, TConst (b mod 256))) (zread code (Z.to_nat o) (Z.to_nat n))
+                       end in
+            if n =? 0 then snext s r
+            else snext (set_mem s (smwrite (ss_mem s) (Z.to_nat d) src)) r
+      | [_; _] | [_] | [] => shalt H_UNDERFLOW
+      | _ => sstuck ST_SYMBOLIC
+      end
+  | IMcopy =>
+      match st with
+      | TConst d :: TConst o :: TConst n :: r =>
+          if (d <? 0) || (o <? 0) || (n <? 0) then sstuck ST_SYMBOLIC
+          else if s_oog_range o n then shalt H_OOG
+          else if s_oog_range d n then shalt H_OOG
+          else if n =? 0 then snext s r
+          else snext (set_mem s (smwrite (ss_mem s) (Z.to_nat d) (smread (ss_mem s) (Z.to_nat o) (Z.to_nat n)))) r
+      | [_; _] | [_] | [] => shalt H_UNDERFLOW
+      | _ => sstuck ST_SYMBOLIC
+      end
+  | IReturndatacopy =>
+      match st with
+      | TConst d :: TConst o :: TConst n :: r =>
+          if (d <? 0) || (o <? 0) || (n <? 0) then sstuck ST_SYMBOLIC
+          else if 0 <? o + n then shalt H_OOB          (* no sub-call in the subset: returndata is empty *)
+          else snext s r
+      | [_; _] | [_] | [] => shalt H_UNDERFLOW
+      | _ => sstuck ST_SYMBOLIC
+      end
+  | ILog n =>
+      match st with
+      | TConst off :: TConst size :: r =>
+          if se_static se then shalt H_STATIC
+          else if (length r <? n)%nat then shalt H_UNDERFLOW
+          else if (off <? 0) || (size <? 0) then sstuck ST_SYMBOLIC
+          else if s_oog_range off size then shalt H_OOG
+          else SNext (set_stack s (skipn n r) (S pc))
+      | [_] | [] => shalt H_UNDERFLOW
+      | _ => sstuck ST_SYMBOLIC
+      end
   | _ => sstuck ST_UNMODELLED
   end.
 
